@@ -286,6 +286,7 @@ let apply_oracle (name : string) (sc : scenario) (o : observation) : bool option
   | "c10" -> c10_oracle sc o
   | "c13" -> c13_oracle sc o
   | "c10k" -> c10k_oracle sc o
+  | "c13k" -> c13k_oracle sc o
   | _ -> failwith ("unknown oracle " ^ name)
 
 let oracle name scen_file obs_file =
